@@ -122,7 +122,7 @@ Print Assumptions C11_no_break_refuted.
 
 (* The defective submission (finding batch-submit-spurious-error: marshal serializer) loses the batch. *)
 Theorem C11_submit_fails_refuted :
-  exists calls s, b_state (run_batch_submit_fails (value:=Z) ESubmit calls s) <> r_state (acc_seq calls s).
+  exists calls s, b_state (run_batch_submit_fails (value:=aval) ESubmit calls s) <> r_state (acc_seq calls s).
 Proof. exact submit_fails_refuted. Qed.
 Print Assumptions C11_submit_fails_refuted.
 
@@ -132,7 +132,7 @@ Print Assumptions C11_submit_fails_refuted.
 Example C11_nonvacuous_stream :
   let calls := [ {| c_meth := MAdd; c_arg := 5 |}; {| c_meth := MMul; c_arg := 3 |};
                  {| c_meth := MSub; c_arg := 16 |}; {| c_meth := MAdd; c_arg := 1 |} ]%Z in
-  b_obs (acc_batch loop_breaks false calls 0%Z) = CStream [Ok 5%Z; Ok 15%Z; Exc (EValue 15 16)]
+  b_obs (acc_batch loop_breaks false calls 0%Z) = CStream [Ok (VInt 5); Ok (VInt 15); Exc (EValue 15 16)]
   /\ b_state (acc_batch loop_breaks false calls 0%Z) = 15%Z
   /\ length (b_log (acc_batch loop_breaks false calls 0%Z)) = 3%nat.
 Proof. vm_compute. auto. Qed.
@@ -141,7 +141,7 @@ Example C11_nonvacuous_refused :
                  {| c_meth := MAdd; c_arg := 1 |} ]%Z in
   b_obs (acc_batch loop_breaks false calls 2%Z) = CRaised (EAttr WUnexposed)
   /\ b_state (acc_batch loop_breaks false calls 2%Z) = 7%Z
-  /\ r_outs (acc_seq calls 2%Z) = [Ok 7%Z; Exc (EAttr WUnexposed)].
+  /\ r_outs (acc_seq calls 2%Z) = [Ok (VInt 7); Exc (EAttr WUnexposed)].
 Proof. vm_compute. auto. Qed.
 Example C11_nonvacuous_oneway :
   let calls := [ {| c_meth := MBoom; c_arg := 4 |}; {| c_meth := MAdd; c_arg := 1 |} ]%Z in
@@ -152,6 +152,13 @@ Example C11_nonvacuous_history :
                EvQueue {| c_meth := MAdd; c_arg := 10 |}; EvQueue {| c_meth := MBoom; c_arg := 1 |};
                EvQueue {| c_meth := MAdd; c_arg := 100 |}; EvIterate 0 1; EvSubmit false; EvIterate 1 9 ]%Z in
   snd (acc_history loop_breaks false evs 0%Z [] []) = 14%Z /\
-  nth 6 (fst (acc_history loop_breaks false evs 0%Z [] [])) HQueued = HIter [Ok 1%Z] /\
-  nth 8 (fst (acc_history loop_breaks false evs 0%Z [] [])) HQueued = HIter [Ok 13%Z; Exc (ERuntime 14)].
+  nth 6 (fst (acc_history loop_breaks false evs 0%Z [] [])) HQueued = HIter [Ok (VInt 1)] /\
+  nth 8 (fst (acc_history loop_breaks false evs 0%Z [] [])) HQueued = HIter [Ok (VInt 13); Exc (ERuntime 14)].
+Proof. vm_compute. auto. Qed.
+(* returned is not raised: a call that SUCCEEDS with an exception object as its value is an ordinary
+   result — the batch goes on and the object is yielded, not raised *)
+Example C11_nonvacuous_returned_exception :
+  let calls := [ {| c_meth := MAdd; c_arg := 3 |}; {| c_meth := MLastErr; c_arg := 1 |}; {| c_meth := MAdd; c_arg := 5 |} ]%Z in
+  b_obs (acc_batch loop_breaks false calls 0%Z) = CStream [Ok (VInt 3); Ok (VExc (EValue 3 1)); Ok (VInt 8)]
+  /\ b_state (acc_batch loop_breaks false calls 0%Z) = 8%Z.
 Proof. vm_compute. auto. Qed.
